@@ -16,7 +16,7 @@ META = {
          "Real protocol+encryption layers of 2-4 accounts run against a stanza-level server double; every conversation script of the grammar is executed under every server schedule with <=k deviations (reorder, duplicate, corrupt) and the exactly-once/ciphertext-only oracle is evaluated on every execution.",
          "Server double is trusted; python-axolotl treated as correct; bounds on script length and deviations stated in evidence.", "3/C03"),
  "C04": ("model_checking", "controlled-scheduler exploration of thread interleavings (preemption-bounded) x chunkings x variants on the real noise stack",
-         "The real network/segments/noise/coder layers and the library's handshake thread run under a scheduler owned by the harness against a Noise responder double; all interleavings up to the preemption bound are executed for every variant/chunking/history of the alphabet (quick: bound 1; thorough: bound 1 on 102 cases, line-granularity points on the cut-off histories, bound 2 on a 14-case core, every phase run to completion).",
+         "The real network/segments/noise/coder layers and the library's handshake thread run under a scheduler owned by the harness against a Noise responder double; all interleavings up to the preemption bound are executed for every variant/chunking/history of the alphabet (quick: bound 1; thorough: bound 1 on 102 cases, line-granularity points on the cut-off histories, bound 2 on a 13-case core, every phase run to completion).",
          "Scheduling points at lock/queue operations and layer calls, environment points where the loop thread waits for the next socket event; Noise responder double and dissononce trusted.", "3/C04"),
  "C05": ("model_checking", "explicit-state BFS over all chunkings on the real segments layer",
          "State = (position, real read buffer, frames delivered); BFS with deduplication covers every chunking of every stream of <=3 frames with 1..5(6) byte payloads, plus boundary-window chunkings of long streams (255..70000 B), and all send size classes incl. the 2^24 limit.",
